@@ -13,7 +13,7 @@ VARIABLES
   \* @type: Int;
   ph,      \* 0: inputs half chosen (TLC only, lets the workers share the enumeration); 1: chosen
   \* @type: Str;
-  fn,      \* "time" | "walltime" | "walltime_null" | "timeout"
+  fn,      \* "time" | "walltime" | "walltime_null" | "timeout" | "epoch"
   \* @type: Int;
   base,    \* dispatch_time_t argument
   \* @type: Int;
@@ -25,7 +25,8 @@ VARIABLES
   \* @type: $now;
   now,
   \* @type: Int;
-  res,     \* the value returned by the call (fn = "timeout": _dispatch_timeout(base))
+  res,     \* the value returned by the call (fn = "timeout": _dispatch_timeout(base),
+           \* fn = "epoch": _dispatch_time_nanoseconds_since_epoch(base))
   \* @type: Int;
   res1,    \* the value returned by the same call with delta + 1 (0 if not applicable)
   \* @type: Str;
@@ -38,14 +39,16 @@ vars == <<ph, fn, base, delta, sec, nsec, now, res, res1, cls>>
 Call(f, b, d, s, n, nw) ==
   IF f = "time" THEN DispatchTime(b, d, nw)
   ELSE IF f = "timeout" THEN TimeoutM(b, nw)
+  ELSE IF f = "epoch" THEN NanosSinceEpoch(b, nw)
   ELSE DispatchWalltime(f = "walltime", s, n, d, nw)
 \* @type: (Str, Int, Int, Int, Int, $now) => Int;
-Call1(f, b, d, s, n, nw) == IF f = "timeout" \/ d = SMAX THEN 0 ELSE Call(f, b, d + 1, s, n, nw)
+Call1(f, b, d, s, n, nw) == IF f = "timeout" \/ f = "epoch" \/ d = SMAX THEN 0 ELSE Call(f, b, d + 1, s, n, nw)
 
 \* @type: (Str, Int, Int, Int, Int, $now) => Str;
 ClassOf(f, b, d, s, n, nw) ==
   IF f = "time" THEN ClassTime(b, d, nw)
   ELSE IF f = "timeout" THEN ""
+  ELSE IF f = "epoch" THEN ClassEpoch(b)
   ELSE ClassWalltime(f = "walltime", s, n, d, nw)
 
 \* TLC: the first half of each input tuple is chosen by Init, the second half by the single
@@ -54,13 +57,19 @@ InitTLC ==
   /\ ph = 0 /\ delta = 0 /\ nsec = 0 /\ res = 0 /\ res1 = 0 /\ cls = ""
   /\ \/ fn = "time" /\ base \in 0 .. M - 1 /\ sec = 0 /\ now \in NowSet
      \/ fn = "timeout" /\ base \in 0 .. M - 1 /\ sec = 0 /\ now \in NowSet
+     \/ fn = "epoch" /\ base \in 0 .. M - 1 /\ sec = 0 /\ now \in NowSet
      \/ fn = "walltime_null" /\ base = 0 /\ sec = 0 /\ now \in NowSet
      \/ fn = "walltime" /\ base = 0 /\ sec \in SMIN .. SMAX /\ now \in (IF Thorough THEN NowSet ELSE OneNow)
+
+\* only the _dispatch_time_nanoseconds_since_epoch tuples (the refutation runs of that law)
+InitTLCEpoch ==
+  /\ ph = 0 /\ delta = 0 /\ nsec = 0 /\ res = 0 /\ res1 = 0 /\ cls = ""
+  /\ fn = "epoch" /\ base \in 0 .. M - 1 /\ sec = 0 /\ now \in NowSet
 
 Choose ==
   /\ ph = 0 /\ ph' = 1
   /\ UNCHANGED <<fn, base, sec, now>>
-  /\ delta' \in (IF fn = "timeout" THEN {0} ELSE SMIN .. SMAX)
+  /\ delta' \in (IF fn = "timeout" \/ fn = "epoch" THEN {0} ELSE SMIN .. SMAX)
   /\ nsec' \in (IF fn = "walltime" THEN (IF Thorough THEN NsecSet ELSE NsecSetQuick) ELSE {0})
   /\ res' = Call(fn, base, delta', sec, nsec', now)
   /\ res1' = Call1(fn, base, delta', sec, nsec', now)
@@ -86,6 +95,7 @@ InitFullFn(f) ==
   /\ cls = ClassOf(f, base, delta, sec, nsec, now)
 InitFullTime == InitFullFn("time")
 InitFullTimeout == InitFullFn("timeout")
+InitFullEpoch == InitFullFn("epoch")
 InitFullWall == InitFullFn("walltime") \/ InitFullFn("walltime_null")
 InitFullCalls == InitFullTime \/ InitFullWall
 \* ... the part of it outside the class wt_int64_overflow.  (Inside that class the *OrKnown
@@ -101,15 +111,16 @@ Ref == IF fn = "time" THEN RefTime(base, delta, now)
 Class == cls
 Class1 == IF fn = "time" THEN ClassTime(base, delta + 1, now)
           ELSE ClassWalltime(fn = "walltime", sec, nsec, delta + 1, now)
-IsCall == ph = 1 /\ fn # "timeout"      \* a dispatch_time / dispatch_walltime call
+IsCall == ph = 1 /\ fn # "timeout" /\ fn # "epoch"     \* a dispatch_time / dispatch_walltime call
+IsEpoch == ph = 1 /\ fn = "epoch"       \* a _dispatch_time_nanoseconds_since_epoch call
 
 TypeOK == /\ ph \in {0, 1}
-          /\ fn \in {"time", "timeout", "walltime_null", "walltime"}
+          /\ fn \in {"time", "timeout", "walltime_null", "walltime", "epoch"}
           /\ base \in 0 .. M - 1 /\ delta \in SMIN .. SMAX
           /\ sec \in SMIN .. SMAX /\ nsec \in SMIN .. SMAX /\ NowOK(now)
           /\ res \in 0 .. M - 1 /\ res1 \in 0 .. M - 1
           /\ cls \in {"", "dt_sum_eq_max", "dt_wall_sum_eq_1", "wt_int64_overflow", "wt_unsaturated",
-                      "wt_past_nonneg_delta"}
+                      "wt_past_nonneg_delta", "epoch_mono"}
 
 \* the SMT-friendly helpers mean what the C operators mean
 HelpersExact ==
@@ -143,15 +154,28 @@ UnderflowNoBlock ==
 UnderflowNoBlockOrKnown ==
   (IsCall /\ Ref.kind = "elapsed" /\ res # FOREVER /\ Class = "") => TimeoutM(res, now) = 0
 
+\* (L4'') ... also where the wait is converted to an absolute wall-clock deadline (timed
+\* dispatch_semaphore_wait on POSIX semaphores): a time that has elapsed on ITS OWN clock yields a
+\* deadline that is not after the wall clock's now
+PastNoBlockEpoch == (IsEpoch /\ RefElapsed(base, now)) => res <= now.wall
+\* the whole law of that conversion: elapsed => not after now.wall; pending => exactly as far
+\* from now.wall as the time is from its own clock's now; FOREVER => FOREVER
+EpochDeadline == IsEpoch => RefDeadlineOK(base, res, now)
+\* what holds of the pinned code: every deviation lies in the named input class
+EpochDeadlineOrKnown == IsEpoch => (RefDeadlineOK(base, res, now) \/ Class # "")
+PastNoBlockEpochOrKnown == (IsEpoch /\ RefElapsed(base, now) /\ Class = "") => res <= now.wall
+
 \* model sanity: the transcribed _dispatch_timeout is the reference wait for finite times
 TimeoutExact ==
   (ph = 1 /\ fn = "timeout" /\ base # FOREVER /\ ~RefOutOfRange(base)) => res = RefWait(base, now)
 
 \* Each known class really contains a deviation of the pinned code (checked as an
 \* invariant that must be VIOLATED when Fixed = {}):  NoDev_<class>
-NoDevIn(c) == ~(IsCall /\ Class = c /\ ~RefOK(Ref, res, now))
+Dev == IF fn = "epoch" THEN ph = 1 /\ ~RefDeadlineOK(base, res, now)
+       ELSE IsCall /\ ~RefOK(Ref, res, now)
+NoDevIn(c) == ~(Class = c /\ Dev)
 \* Apalache: one counterexample per class in one run (--view=ClassView --max-error=n)
-NoDevAny == ~(IsCall /\ Class # "" /\ ~RefOK(Ref, res, now))
+NoDevAny == ~(Class # "" /\ Dev)
 \* @type: Str;
 ClassView == Class
 NoDev_dt_sum_eq_max == NoDevIn("dt_sum_eq_max")
@@ -159,4 +183,5 @@ NoDev_dt_wall_sum_eq_1 == NoDevIn("dt_wall_sum_eq_1")
 NoDev_wt_int64_overflow == NoDevIn("wt_int64_overflow")
 NoDev_wt_unsaturated == NoDevIn("wt_unsaturated")
 NoDev_wt_past_nonneg_delta == NoDevIn("wt_past_nonneg_delta")
+NoDev_epoch_mono == NoDevIn("epoch_mono")
 =============================================================================
